@@ -31,6 +31,7 @@ type satCfg struct {
 	Random  bool
 	Ranges  bool
 	ZVal    float64
+	Reverse bool
 }
 
 func satRequest(cfg satCfg) M {
@@ -53,6 +54,12 @@ func satRequest(cfg satCfg) M {
 		}
 		ka = append(ka, alt(ids6[i], cv))
 		chose = append(chose, ids6[i])
+	}
+	if cfg.Reverse {
+		for i, j := 0, len(chose)-1; i < j; i, j = i+1, j-1 {
+			chose[i], chose[j] = chose[j], chose[i]
+			ka[i], ka[j] = ka[j], ka[i]
+		}
 	}
 	zv := map[string]float64{}
 	for _, id := range cids {
@@ -287,6 +294,18 @@ func decLists(cids []string) []levelSpec {
 			out = append(out, levelSpec{Fn: "thresholds", Explicit: ex})
 		}
 	}
+	// lists with a plateau (two consecutive identical levels)
+	for _, seq := range [][]float64{{2.5, 1.5, 1.5, 0.5}, {1.5, 1.5}} {
+		var ex []map[string]float64
+		for _, v := range seq {
+			m := map[string]float64{}
+			for _, id := range cids {
+				m[id] = v
+			}
+			ex = append(ex, m)
+		}
+		out = append(out, levelSpec{Fn: "thresholds", Explicit: ex})
+	}
 	// one non-monotone list and the empty list
 	nm := []map[string]float64{{}, {}}
 	for _, id := range cids {
@@ -350,6 +369,11 @@ func satEnumerate(s *Shard, prop string, fn func(c *Case)) {
 							cfg.Vals, cfg.Ranges, cfg.ZVal = nv, false, -1.5
 						}
 						fn(&Case{Prop: prop, Kind: "satisfaction", Req: satRequest(cfg)})
+						if g.n == 3 && (si+ci)%2 == 1 {
+							rc := cfg
+							rc.Reverse = true
+							fn(&Case{Prop: prop, Kind: "satisfaction", Req: satRequest(rc)})
+						}
 						if g.n >= 2 && g.n <= 3 && g.m == 2 && si%5 == 0 {
 							for _, k := range []float64{0, 0.5, 1 - 1.0/(1<<53)} {
 								cfg.Random = true
